@@ -71,7 +71,8 @@ impl<R> BufReader<R> {
     pub fn with_capacity(cap: usize, reader: R) -> Self {
         Self {
             reader,
-            buf: Buffer::with_capacity(cap),
+            // With no capacity every fill reads 0 bytes, which `fill_buf` reports as EOF.
+            buf: Buffer::with_capacity(cap.max(1)),
         }
     }
 }
